@@ -37,13 +37,13 @@ PROPS["C19"] = {
             "cancels and one that is kept, or a getRelativePath pair with a common prefix. "
             "files: up to 6 set-up ops (files f0..f3 with contents, directories d0/d1 made with POSIX calls) and 1..size ops from open (all 16 flag "
             "combinations), close, write (buffer and String), read, readAll, seek (3 origins, negative and beyond the end), size, position, "
-            "File::copy, File::rename (both failIfExists values), unlink, exists, static readAll, over 8 flat names plus a name below a missing "
+            "File::copy (30 % of them under an RLIMIT_FSIZE below the source size: must fail and leave neither a new nor a partial destination), File::rename (both failIfExists values), unlink, exists, static readAll, over 8 flat names plus a name below a missing "
             "directory and a name below a regular file. Oracle: every returned byte string, count, position and boolean equals the model's; after "
             "every op the scratch directory equals the model (a new entry, a missing entry, changed contents or type fail at once); descriptor "
             "count unchanged at the end. Non-trivial = a failing operation among >= 3 successful ones. "
             "dirs: 1..12 build ops (mkdir, file, symlink of 8 kinds: absolute/relative, to an outside file, outside directory, the sentinel root, "
             "dangling) and 1..size ops; a path is the tree root or a current entry + 0..3 new names (or '/.', '/..') decorated with absolute "
-            "spelling, trailing '/', '//', './', 'x/../'. Oracles: create returns true <=> stat says directory afterwards; if nothing on the way "
+            "spelling, trailing '/', '//', './', 'x/../'. In 25 % of the create ops the k-th mkdir() of the call loses a race: the --wrap'ped mkdir makes the directory first, the library's own call fails with EEXIST. Oracles: create returns true <=> stat says directory afterwards; if nothing on the way "
             "is a non-directory the directory must exist afterwards and exactly the missing directories were added; unlink returns true and "
             "removes exactly the subtree for an empty directory or with recursive=true, returns false and changes nothing otherwise (non-empty "
             "without recursive, file, link, missing); exists == stat; open/read lists exactly the entries that match the pattern ('*', '?') with "
